@@ -1083,11 +1083,15 @@ class C18(Cfg):
         for part in range(nparts):
             mine = names[part::nparts]
             s = "--- db\n"
-            for nm in mine:
-                s += f"!str.Set {hx(nm)} {hx('v')}\n"
+            # matching must not depend on the expiry state of a name: every third name carries a live TTL,
+            # and in every other part so do the collections that are scanned
+            for i, nm in enumerate(mine):
+                s += f"!str.SetExpires {hx(nm)} {hx('v')} 7200000\n" if i % 3 == 1 else f"!str.Set {hx(nm)} {hx('v')}\n"
             s += f"!set.Add {hx('S')} {len(mine)} " + " ".join(hx(nm) for nm in mine) + "\n"
             for nm in mine[:12]:
                 s += f"!hash.Set {hx('H')} {hx(nm)} {hx('v')}\n!zset.Add {hx('Z')} {hx(nm)} 1p0\n"
+            if part % 2:
+                s += f"!key.Expire {hx('S')} 7200000\n!key.Expire {hx('H')} 7200000\n!key.Expire {hx('Z')} 7200000\n"
             step = 1 if tier == "thorough" or search else 2
             for i, pt in enumerate(pats):
                 if (i + part) % step:
